@@ -402,6 +402,25 @@ def sep_rule(ck, prog, items=None, floor=10):
                 ck.ob("SEP", f"{name}::{item}:capacity<-length", ok,
                       f"{name}::{item}: a fixed (capacity) position of the initial state depends on the length of the input, by value or by the "
                       "branch that writes it", loc=f.loc())
+                if item == "hash_elements" and any((callee_name(tt) or "").endswith("slice_as_base_elements") for _, tt in f.calls()):
+                    # the count injected is the number of BASE elements absorbed — the length of the converted slice, not of the
+                    # extension-typed input (the same residues typed as k extension elements or as k*d base elements must hash alike)
+                    unit_ok = True
+                    n_len = 0
+                    for b, i, s in const_stores:
+                        ops_, places_ = g._rv_ops(s["rv"])
+                        w = g.walk(ops=ops_, places=places_, at=(b, i))
+                        for nd in w:
+                            if nd[0] == "c" and (callee_name(f.term(nd[1])) or "").endswith("slice::len"):
+                                n_len += 1
+                                lw = g.walk(ops=f.term(nd[1])["args"][:1], at=(nd[1], T), through=lambda tt: True)
+                                if not any(x.endswith("slice_as_base_elements") for x in g.callee_names_in(lw)):
+                                    unit_ok = False
+                    if n_len:
+                        ck.ob("SEP", f"{name}::hash_elements:length-in-base-elements", unit_ok,
+                              f"{name}::hash_elements: the length written into the capacity is the length of the slice of base elements that is absorbed",
+                              loc=f.loc(), detail=None if unit_ok else "the length of the extension-typed input slice is injected: the digest depends on how the same "
+                                                                        "residues are typed, and inputs of different base length collide")
             elif item == "merge_with_int":
                 is_val_mod = lambda w: any(f.local_name(p) == "value" for p in g.params_in(w)) and any("MODULUS" in k for k in g.consts_in(w))
                 div_ok = False
